@@ -123,10 +123,9 @@ OpbCommentsOnly ==
 LatexRoundTrip ==
     /\ LatexOK(F, Labels, Named, LatexSnippet(F, Shown, FALSE), "snippet", PageSize)
     /\ LatexOK(F, Labels, Named, LatexDocument(F, Shown, PageSize, FALSE), "document", PageSize)
-    \* a document may use shorter pages, never longer ones; a snippet is never split
+    \* a document may use shorter or longer pages (typesetting); a snippet is never split
     /\ LatexOK(F, Labels, Named, LatexDocument(F, Shown, 1, FALSE), "document", PageSize)
-    /\ LatexWhy(F, Labels, Named, LatexDocument(F, Shown, PageSize + 1, FALSE), "document", PageSize)
-          = IF Len(Cons(F)) > PageSize THEN "page_too_long" ELSE "ok"
+    /\ LatexOK(F, Labels, Named, LatexDocument(F, Shown, PageSize + 1, FALSE), "document", PageSize)
     /\ LatexWhy(F, Labels, Named, LatexWrite(F, Shown, PageSize, TRUE, FALSE), "snippet", PageSize)
           = IF Len(Cons(F)) > PageSize THEN "snippet_is_split" ELSE "ok"
 
